@@ -162,7 +162,39 @@ PayloadValid(in) == /\ ~RepeatsAction(in)
                     /\ \A i \in DOMAIN in.acts : ActOf(in.acts[i].id) # "BAD" /\ in.acts[i].at # "NONE"
                     /\ PidOf(in.fw.pid) # "BAD" /\ in.fw.at # "NONE"
 
-AmtKind(in) == CASE in.amtc \in {"OK", "PLUS", "LEADZERO"} -> "num"
+-----------------------------------------------------------------------------
+(* Structural mutations of a valid memo (C14).  mk = "MUT": the memo is the valid   *)
+(* payload described by fw/acts with mutation in.op applied at JSON path in.aid.    *)
+(* MustRefuse lists the mutants that are NECESSARILY ill-formed (a required element *)
+(* null / absent / wrongly typed, a null list element); for the others the spec     *)
+(* makes no claim beyond "an acknowledgement is returned".                          *)
+Mutations == {"null", "absent", "emptyobj", "emptyarr", "string", "number", "bool", "negative", "two64", "huge",
+              "emptystr", "longstr", "numstr", "dupkey", "dupsame", "deep", "deepobj"}
+DupMuts == {"dupkey", "dupsame"}
+WrongTypeForList == Mutations \ (DupMuts \cup {"null", "absent", "emptyarr"})
+PA == "orbiter.pre_actions"
+A0 == "orbiter.pre_actions.0"
+FI == "orbiter.pre_actions.0.attributes.fees_info"
+FW == "orbiter.forwarding"
+MustRefuseMut(path, m) ==
+  CASE path \in {"root", "orbiter", FW, FW \o ".protocol_id", FW \o ".attributes", A0 \o ".id", A0 \o ".attributes",
+                 FI \o ".0.recipient", FI \o ".0.basis_points", FI \o ".1.amount"} -> m \notin DupMuts
+    [] path \in {FW \o ".attributes.@type", A0 \o ".attributes.@type"} -> m \notin DupMuts
+    [] path \in {PA, FI} -> m \in WrongTypeForList
+    [] path \in {A0, FI \o ".0", FI \o ".1"} -> m \notin DupMuts \cup {"absent"}
+    [] path = FI \o ".0.basis_points.value" -> m \notin DupMuts \cup {"number", "numstr"}
+    [] path = FI \o ".1.amount.value" -> m \in {"null", "absent", "string", "emptystr", "longstr", "emptyobj", "emptyarr", "bool", "deep", "deepobj"}
+    \* (an empty JSON array is a legal spelling of empty bytes for the codec: no claim)
+    [] path = FW \o ".passthrough_payload" -> m \in {"number", "bool", "emptyobj", "deep", "deepobj", "negative", "two64", "huge"}
+    [] OTHER -> FALSE
+MustRefuse(in) == in.mk = "MUT" /\ MustRefuseMut(in.aid, in.op)
+
+\* amount encodings: ICS-20 and orbiter both parse the amount with sdkmath.NewIntFromString, which
+\* (base 0) also accepts a leading 0 (octal), 0x.. and digit separators; the VALUE of those "odd"
+\* spellings is outside the abstraction, so such inputs are out of the model (C16 judges them
+\* on the observed coins alone).
+AmtKind(in) == CASE in.amtc \in {"OK", "PLUS"} -> "num"
+                 [] in.amtc \in {"LEADZERO", "HEX", "UNDERSCORE"} -> "odd"
                  [] in.amtc \in {"MAX256", "BIG"} -> "huge"
                  [] OTHER -> "bad"
 
@@ -284,6 +316,7 @@ Forward(s, fw, coin, F) ==
      IF fw.dom = CctpNobleDomain \/ fw.mint = "NONE" THEN fail("cctp-attr-invalid")
      ELSE IF "cctpBurn" \in F THEN fire("fault", "cctpBurn")
      ELSE IF fw.mint = "MINT_ZERO" THEN fail("cctp-zero-mint")
+     ELSE IF fw.mint \notin Bytes32 \/ fw.caller \notin Bytes32 \cup {"NONE"} THEN fail("cctp-bytes-len")
      ELSE IF fw.dom \notin CctpDomains THEN fail("cctp-unknown-domain")
      ELSE IF coin.d # MintingDenom THEN fail("cctp-denom")
      ELSE IF s.env.cctpPaused THEN fail("cctp-paused")
@@ -293,7 +326,7 @@ Forward(s, fw, coin, F) ==
            st |-> [s EXCEPT !.bal["orb"][coin.d] = @ - coin.n, !.supply[coin.d] = @ - coin.n]]
   ELSE IF pid = "HYP" THEN
      IF fw.tok \notin Bytes32 \/ fw.rcp \notin Bytes32 \/ fw.hook \notin Bytes32 \cup {"NONE"}
-        \/ fw.dom \in HypNobleDomains \/ ~ValidMeta(fw.meta) THEN fail("hyp-attr-invalid")
+        \/ fw.dom \in HypNobleDomains \/ ~ValidMeta(fw.meta) \/ fw.maxfee < 0 THEN fail("hyp-attr-invalid")
      ELSE IF "hypToken" \in F THEN fire("fault", "hypToken")
      ELSE IF fw.tok \notin HypTokens THEN fail("hyp-unknown-token")
      ELSE IF OriginDenom(fw.tok) # coin.d THEN fail("hyp-denom")
@@ -356,7 +389,7 @@ ResF(ok, why, s, req, fired, trace) == [ok |-> ok, why |-> why, st |-> s, req |-
 
 \* blockibc: the FTF's own IBC middleware, outermost in simapp's stack
 BlockIBCRefuses(s, in) ==
-  \/ ~IsICS20(in)
+  \/ ~IsICS20(in)            \* (random bytes that happen to be ICS-20 JSON are out of the model)
   \/ /\ in.base = MintingDenom
      /\ \/ s.env.ftfPaused
         \/ ~RcvDecodes(in.rcv) /\ in.rcv # "OTHER_HRP"
@@ -365,7 +398,8 @@ BlockIBCRefuses(s, in) ==
 \* plain ICS-20 (ibc-go transfer keeper OnRecvPacket)
 PlainICS20(s, in) ==
   LET to == RcvAcct(in.rcv) IN
-  IF AmtKind(in) = "bad" \/ in.amt < 1 \/ ~RcvDecodes(in.rcv) \/ ~ValidBaseDenom(in.base)
+  IF AmtKind(in) = "odd" THEN Res(FALSE, "out-of-model", s, NoReq)
+  ELSE IF AmtKind(in) = "bad" \/ in.amt < 1 \/ ~RcvDecodes(in.rcv) \/ ~ValidBaseDenom(in.base)
      THEN Res(FALSE, "ics20-invalid", s, NoReq)
   ELSE IF in.dn = "RET" THEN      \* returning token: un-escrow
      IF to \in BankBlocked THEN Res(FALSE, "ics20-blocked-receiver", s, NoReq)
@@ -385,9 +419,12 @@ RecvOrbiter(s0, in) ==
       fail(w) == Res(FALSE, w, s0, NoReq)
       fire(pt) == ResF(FALSE, "fault", s0, NoReq, {pt}, <<>>)
   IN
-  IF ~ParseOK(in) THEN fail("parse")
+  IF in.mk \in {"MUT", "RANDOM", "RAW"} THEN
+     (IF MustRefuse(in) THEN fail("malformed") ELSE Res(FALSE, "out-of-model", s0, NoReq))
+  ELSE IF ~ParseOK(in) THEN fail("parse")
   ELSE IF ~PayloadValid(in) THEN fail("payload-invalid")
   ELSE IF AmtKind(in) = "bad" THEN fail("amount")
+  ELSE IF AmtKind(in) = "odd" THEN Res(FALSE, "out-of-model", s0, NoReq)
   ELSE IF in.dn # "RET" THEN fail("denom-not-returning-native")
   ELSE IF ~ValidBaseDenom(d) \/ (AmtKind(in) = "num" /\ in.amt < 1) THEN fail("transfer-attributes")
   ELSE IF in.fw.pt > (IF s0.hasParams THEN s0.maxPT ELSE 0) THEN fail("passthrough-too-long")
